@@ -211,7 +211,7 @@ func ModelConn(cfg SvcConfig, frames [][]byte) (exp []ExpFrame, inv []ExpInv, al
 				case "reply":
 					if op.Continues && !wc.More {
 						ok = false
-					} else if op.Go == "nan" {
+					} else if Unencodable(op.Go) {
 						// parameters without a JSON encoding: nothing may be written; the attempt is reported to the handler
 						// (for a oneway call nothing is written either way and the result is not fixed by any statement)
 						ok, dc = false, wc.Oneway
@@ -231,7 +231,7 @@ func ModelConn(cfg SvcConfig, frames [][]byte) (exp []ExpFrame, inv []ExpInv, al
 							cls = "refuse"
 						}
 					}
-					if cls == "accept" && op.Go == "nan" {
+					if cls == "accept" && Unencodable(op.Go) {
 						cls = "refuse"
 						dc = wc.Oneway
 					}
@@ -266,7 +266,7 @@ func ModelConn(cfg SvcConfig, frames [][]byte) (exp []ExpFrame, inv []ExpInv, al
 				}
 				e.Results = append(e.Results, ok)
 				e.DontCare = append(e.DontCare, dc)
-				if op.Ret && op.Go != "nan" {
+				if op.Ret && !Unencodable(op.Go) {
 					if !ok {
 						e.RetErr = true
 						dead = true
@@ -367,4 +367,15 @@ func MatchFrame(got []byte, e ExpFrame, cfg SvcConfig) string {
 		}
 		return ""
 	}
+}
+
+// UnencodableKinds are the scripted Go values that have no JSON encoding: NaN, pre-encoded parameters (json.RawMessage, by
+// value and by pointer) whose bytes are not one JSON value - a raw NUL or control byte inside a string, a truncated
+// document, trailing material that would forge further members of the frame -, a channel, and Marshaler
+// implementations that fail or return such bytes. A reply attempt with one of them is refused with nothing written.
+var UnencodableKinds = []string{"nan", "badraw-nul", "badraw-trunc", "badraw-tail", "badrawptr-nul", "badrawptr-tail", "badchan", "badmarshaler-err", "badmarshaler-bytes"}
+
+// Unencodable reports whether a scripted Go value kind has no JSON encoding.
+func Unencodable(kind string) bool {
+	return kind == "nan" || strings.HasPrefix(kind, "bad")
 }
